@@ -5,6 +5,7 @@ CONSTANTS
   MaxHandles = 3
   MaxOps = 6
   Misuse = FALSE
+  Race = FALSE
 VIEW ViewNoHist
 INVARIANTS TypeOK ChainIsPath TreeShape RefsPositive HeldIsPresent DiscardedStaysOut WaitersGetChain
 PROPERTIES OnlyChildFinalized NoTraceOfFailure OnlyFinalizeMovesFin
